@@ -84,6 +84,7 @@ type Contract struct {
 	File     string
 	ParamNames []string // optional rename of positional params (lib/iface)
 	Panics   []Clause // allowed panic conditions
+	Alias    string
 }
 
 type Specs struct {
@@ -95,11 +96,12 @@ type Specs struct {
 	Contracts map[string]*Contract // by key
 	Order     []string
 	SortAlias map[string]Sort
+	Aliases   map[string]*Contract
 }
 
 func newSpecs() *Specs {
 	return &Specs{Models: map[string]*ModelDecl{}, UFuns: map[string]*UFunDecl{}, Defs: map[string]*DefDecl{}, Consts: map[string]Clause{},
-		Contracts: map[string]*Contract{}, SortAlias: map[string]Sort{
+		Contracts: map[string]*Contract{}, Aliases: map[string]*Contract{}, SortAlias: map[string]Sort{
 			"int": SInt, "Int": SInt, "bool": SBool, "Bool": SBool, "string": SStr, "Str": SStr, "ref": SInt, "obj": SInt, "Ref": SInt,
 			"Iface": SIface, "iface": SIface, "error": SIface, "Slice": SSlice, "slice": SSlice,
 			"IntSet": "(Array Int Bool)", "StrSet": "(Array Str Bool)", "IntMap": "(Array Int Int)", "StrMap": "(Array Str Str)", "StrBoolMap": "(Array Str Bool)",
@@ -115,7 +117,7 @@ func (s *Specs) sortByName(n string) (Sort, error) {
 
 var clauseKeywords = map[string]bool{"func": true, "lib": true, "iface": true, "model": true, "ufun": true, "def": true, "axiom": true, "const": true,
 	"requires": true, "ensures": true, "assigns": true, "pure": true, "readonly": true, "inline": true, "loop": true, "sink": true, "at": true,
-	"trusted": true, "fresh": true, "panics": true, "props": true, "sort": true, "params": true}
+	"trusted": true, "alias": true, "fresh": true, "panics": true, "props": true, "sort": true, "params": true}
 
 // loadSpecFile parses one contract/spec file. Lines may carry a "//@" prefix (Go comment-only contract files).
 func (s *Specs) loadSpecFile(path string) error {
@@ -269,6 +271,9 @@ func (s *Specs) loadSpecFile(path string) error {
 				cur.Inline = true
 			case "trusted":
 				cur.Trusted = true
+			case "alias":
+				cur.Alias = rest
+				s.Aliases[rest] = cur
 			case "fresh":
 				for _, n := range strings.Split(rest, ",") {
 					cur.Fresh = append(cur.Fresh, strings.TrimSpace(n))
